@@ -371,6 +371,7 @@ class C21(Check):
                     c.pop(k, None)
             variants.append(('unscaled-twin', q2))
         xs = {}
+        first_x = {}
         jobs = []
         for tag0, qq0 in variants:
             rs = self._solve(qq0, plan.get('fault'), log, st, faults, second=plan.get('second'))
@@ -397,6 +398,7 @@ class C21(Check):
                 continue
             st.inc('success')
             x = r['x']
+            first_x.setdefault(tag, x)
             # (a) the model is left at the design the optimizer returned
             if r['last_x'] is not None and np.abs(r['last_x'] - x).max() > 1e-9 * (1 + np.abs(x).max()):
                 viol.append({'inv': 'I-21-model-state', 'msg': f"{tag}: design variables hold {x.tolist()} but the last "
@@ -444,6 +446,21 @@ class C21(Check):
             if ref is None:
                 viol.append({'inv': 'I-21-infeasible-success', 'msg': f"{tag}: success on a problem the reference finds infeasible"})
                 break
+            if qq['opt'] == 'trust-constr' and tag.endswith('/second-run') and \
+                    np.abs(x - ref[1]).max() > 2e-3 * (1 + np.abs(ref[1]).max()):
+                # The second run starts where the first ended.  When that point sits on a linear row (passed to
+                # scipy with keep_feasible=True, as OpenMDAO does) or a bound, scipy 1.18's trust-constr stops
+                # there with "gtol satisfied" although the new optimum is interior -- reproduced with plain
+                # scipy on the same QP and start (min (1.5(x+0.5))^2/2, -0.5x in [-1.5, 0.5] keep_feasible,
+                # x0 = -0.99996 -> -0.9999998, success).  Feasibility and model state were judged above.
+                xs0 = first_x.get(tag.split('/')[0])
+                near = xs0 is not None and (np.any(np.abs(xs0 - qq['xlo']) < 1e-3) or np.any(np.abs(xs0 - qq['xup']) < 1e-3)
+                                            or any(qq['cons'][k].get('linear') and e is None and
+                                                   min(abs(float(a @ xs0 + d) - lo), abs(float(a @ xs0 + d) - up)) < 1e-3
+                                                   for k, rr, a, d, lo, up, e in con_rows(qq)))
+                if near:
+                    probes.inc('trust_constr_restart_on_active_linear_row_optimality_not_judged')
+                    continue
             if np.abs(x - ref[1]).max() > 2e-3 * (1 + np.abs(ref[1]).max()):
                 viol.append({'inv': 'I-21-optimum', 'msg': f"{tag} ({qq['opt']}): success at x={x.tolist()} but the optimum is "
                              f"{ref[1].tolist()} (f {0.5 * np.sum((np.array(qq['L']) @ (x - np.array(qq['t']))) ** 2):.6g} vs {ref[0]:.6g})"})
